@@ -312,6 +312,13 @@ class FunTrans(object):
             return "(ofZ K %s)" % term
         fail(node, "cannot use %s as a float" % show_type(t))
 
+    def coerce_operand(self, opnode, term, t, node):
+        """an int LITERAL next to a float is the float literal of the same value (1 - x is 1.0 - x)"""
+        if resolve(t) == "int" and isinstance(opnode, ast.Constant) and isinstance(opnode.value, int) \
+                and not isinstance(opnode.value, bool):
+            return self.const(ast.Constant(value=float(opnode.value)))[1]
+        return self.coerce_float(term, t, node)
+
     def const(self, node):
         v = node.value
         if isinstance(v, bool):
@@ -395,11 +402,14 @@ class FunTrans(object):
             if op == "FloorDiv":
                 if isinstance(node.right, ast.Constant) and node.right.value != 0:
                     return b, "(%s / %s)" % (l, r), "int"       # Z./ floors like Python for every sign
+            if op == "Mod":
+                if isinstance(node.right, ast.Constant) and isinstance(node.right.value, int) and node.right.value > 0:
+                    return b, "(%s mod %s)" % (l, r), "int"     # Z.modulo has the sign of the divisor, like Python
             fail(node, "integer operator %s not understood" % op)
         if "float" in (tl, tr):
             if "ratio" in (tl, tr):
                 fail(node, "mixing an int/int quotient with a float")
-            l, r = self.coerce_float(l, tl, node), self.coerce_float(r, tr, node)
+            l, r = self.coerce_operand(node.left, l, tl, node), self.coerce_operand(node.right, r, tr, node)
             fn = {"Add": "oadd", "Sub": "osub", "Mult": "omul", "Div": "odiv"}.get(op)
             if fn is None:
                 fail(node, "float operator %s not understood" % op)
@@ -1659,6 +1669,10 @@ SPEC = {
              "returns": "list[float]"},
             {"name": "knot_removal_kv", "params": {"knotvector": "list[float]", "span": "int", "r": "int"},
              "returns": "list[float]"},
+            # alias_ok: pts_red[0] = ctrlpts[0] etc. store points under a second name, but no point is ever updated in
+            # place (pts_red[i] = [...] replaces whole points)
+            {"name": "degree_reduction", "params": {"degree": "int", "ctrlpts": MAT}, "kwargs": {"check_num": "bool"},
+             "returns": MAT, "alias_ok": True},
         ]},
     },
 }
